@@ -246,15 +246,48 @@ impl Scenario for Concurrent {
                 s
             })
             .collect();
+        // 1 run in 3: every sampler reports progress (run_progress: own threads, channels, clock) while the
+        // others do the same
+        if g.bool(1, 3) {
+            let specs: Vec<Value> = (0..n)
+                .map(|_| {
+                    let mut s = gen_spec(g, &["mh_gauss", "mh_table", "gibbs_det", "hmc_f32", "nuts_f32", "nuts_f32"]);
+                    s = with(&s, "n_collect", json!(pu(&s, "n_collect").max(4)));
+                    s = with(&s, "n_chains", json!(pu(&s, "n_chains").min(3)));
+                    with(&s, "seed", json!(g.range(0, 1u64 << 40).to_string()))
+                })
+                .collect();
+            return json!({"specs": specs, "progress": true, "sim": gen_sim(g, 12, true)});
+        }
         json!({"specs": specs, "sim": gen_sim(g, 8, false)})
     }
     fn execute(&self, params: &Value, want_sample: bool) -> Outcome {
         let mut o = Outcome::default();
         let specs: Vec<Spec> = params["specs"].as_array().unwrap().iter().map(spec_of).collect();
+        let progress = params.get("progress").and_then(|v| v.as_bool()).unwrap_or(false);
+        o.count("probe_concurrent_progress_runs", progress as u64);
+        let mode = if progress { Mode::Progress } else { Mode::Run };
         let mut refs = vec![];
         for s in &specs {
-            match solo(s, Mode::Sequential) {
-                Ok(Ok(r)) => refs.push(r),
+            // reference: run() alone from the same sampler state (progress mode of NUTS: one more draw, rows 1..)
+            let mut rs = s.clone();
+            if progress && is_nuts(&s.kind) {
+                rs.n_collect += 1;
+            }
+            match solo(&rs, Mode::Sequential) {
+                Ok(Ok(mut r)) => {
+                    if progress && is_nuts(&s.kind) {
+                        let dim = r.shape[2];
+                        let mut v = vec![];
+                        for c in 0..r.shape[0] {
+                            for k in 1..r.shape[1] {
+                                v.extend_from_slice(&r.bits[(c * r.shape[1] + k) * dim..(c * r.shape[1] + k + 1) * dim]);
+                            }
+                        }
+                        r.bits = v;
+                    }
+                    refs.push(r)
+                }
                 Ok(Err(e)) => {
                     o.violate("run_err", &format!("{}:run-Err", kind_family(&s.kind)), e);
                     return o;
@@ -272,7 +305,7 @@ impl Scenario for Concurrent {
             let handles: Vec<_> = sp
                 .iter()
                 .cloned()
-                .map(|s| mcmc_sim::thread::spawn(move || run_spec(&s, Mode::Run).map(|r| r.bits)))
+                .map(|s| mcmc_sim::thread::spawn(move || run_spec(&s, mode).map(|r| r.bits)))
                 .collect();
             handles.into_iter().map(|h| h.join().unwrap_or_else(|_| Err("sampler thread panicked".into()))).collect::<Vec<_>>()
         });
@@ -330,7 +363,7 @@ impl Scenario for Concurrent {
         out
     }
     fn rule(&self) -> &'static str {
-        "one run = 2-3 samplers, each in its own simulated thread calling run(), interleaved per transition by a seeded schedule; each must return exactly its solo sequential output; non-trivial = >= 2 context switches; distinct = hash of (schedule, events, parameters)"
+        "one run = 2-3 samplers, each in its own simulated thread calling run() (1 in 3: all calling run_progress(), compared with run() alone), interleaved per transition by a seeded schedule; each must return exactly its solo sequential output; non-trivial = >= 2 context switches; distinct = hash of (schedule, events, parameters)"
     }
     fn components(&self) -> Value {
         json!({"real": ["all four samplers' run()", "burn (incl. its process-global generator)"], "stub": ["threads and pool = simulator"]})
@@ -438,7 +471,17 @@ impl Scenario for InitPure {
         tier.pick(2000, 60_000)
     }
     fn generate(&self, g: &mut Gen, _tier: Tier, _idx: u64) -> Value {
-        json!({"n": g.usize(0, 40), "d": g.usize(0, 12), "m": g.usize(0, 40), "seed": special_seed(g, 3).to_string(), "threads": g.usize(1, 4), "sim": gen_sim(g, 5, false)})
+        let (mut n, mut d) = (g.usize(0, 40), g.usize(0, 12));
+        // 1 run in 8: a large initialisation whose TOTAL size n*d sits at a threshold of the source-literal
+        // dictionary (t-1, t, t+1, or just above), e.g. a size from which work is split over pool workers
+        if g.bool(1, 8) {
+            if let Some(t) = crate::core::dict_size(g, 16, 100_000) {
+                let t = t + if g.bool(1, 3) { g.usize(0, 2000) } else { 0 };
+                n = g.usize(1, 64).min(t.max(1));
+                d = (t + n - 1) / n;
+            }
+        }
+        json!({"n": n, "d": d, "m": g.usize(0, 40), "seed": special_seed(g, 3).to_string(), "threads": g.usize(1, 4), "pools": g.bool(1, 3), "sim": gen_sim(g, 5, false)})
     }
     fn execute(&self, params: &Value, want_sample: bool) -> Outcome {
         let mut o = Outcome::default();
@@ -481,6 +524,19 @@ impl Scenario for InitPure {
             return o;
         }
         let bits = |v: &Vec<Vec<f64>>| v.iter().map(|r| r.iter().map(|x| x.to_bits()).collect::<Vec<_>>()).collect::<Vec<_>>();
+        o.count("probe_init_total_ge_32768", (n * d >= 32768) as u64);
+        // pure function of its arguments: also of the size of the rayon pool the call happens to run in
+        if params.get("pools").and_then(|v| v.as_bool()).unwrap_or(false) {
+            for k in [1usize, 2, 3, 7] {
+                let Ok(pool) = rayon::ThreadPoolBuilder::new().num_threads(k).build() else { continue };
+                let got: Vec<Vec<f64>> = pool.install(|| init_with_seed(n, d, seed));
+                o.count("probe_init_in_real_pool", 1);
+                if bits(&got) != bits(&base) {
+                    o.violate("init_not_pure", "init_with_seed:depends-on-pool-size", format!("init_with_seed({n},{d},{seed}) inside a rayon pool of {k} workers differs from the call outside any pool"));
+                    break;
+                }
+            }
+        }
         for (a, b, c, e, f) in out.unwrap_or_default() {
             if bits(&a) != bits(&base) {
                 o.violate("init_not_pure", "init_with_seed:not-pure", format!("init_with_seed({n},{d},{seed}) returned different values on a second call / another thread"));
@@ -511,7 +567,7 @@ impl Scenario for InitPure {
         out
     }
     fn rule(&self) -> &'static str {
-        "init_with_seed / init_det called from 1-4 simulated threads in different call orders; non-trivial = n*d > 0; distinct = hash of (schedule, parameters)"
+        "init_with_seed / init_det (n 0..40 x d 0..12; 1 in 8 with a total size at a dictionary threshold up to 100000) called from 1-4 simulated threads in different call orders and, 1 run in 3, inside real rayon pools of 1, 2, 3, 7 workers; non-trivial = n*d > 0; distinct = hash of (schedule, parameters)"
     }
     fn components(&self) -> Value {
         json!({"real": ["init_with_seed", "init_det"], "stub": ["threads = simulator"]})
